@@ -200,8 +200,15 @@ def Db.delete (d : Db) (mint maxt : Int) (sel : Option Nat) : Db :=
 
 def visible (tombs : Intervals) (x : Smp) : Bool := !coversB tombs x.t
 
+/-- `rangeStartForTimestamp`: start of the width-aligned range containing `t` (Go's `/` truncates
+    toward zero, so negative non-multiples step down once more — repaired in /repo by
+    "fix: tsdb: align negative timestamps to the block range that contains them"). -/
+def rangeStartForTimestamp (t width : Int) : Int :=
+  let start := (t.tdiv width) * width
+  if t < 0 ∧ t.tmod width ≠ 0 then start - width else start
+
 /-- `rangeForTimestamp` -/
-def rangeForTimestamp (t width : Int) : Int := (t.tdiv width) * width + width
+def rangeForTimestamp (t width : Int) : Int := rangeStartForTimestamp t width + width
 
 def Db.compactable (d : Db) : Bool :=
   d.initialized && decide (d.maxT - d.minT > d.cfg.chunkRange.tdiv 2 * 3)
